@@ -245,6 +245,46 @@ func shortCriticalSections(c *an.Ctx, rule, key string) bool {
 					}
 				}
 			}
+			// … nor a call that takes the same mutex again: sync.Mutex is not re-entrant, and a second RLock of an
+			// RWMutex deadlocks as soon as a writer has queued up between the two
+			an.EachInstr(fn, func(x ssa.Instruction) {
+				ci, ok := x.(ssa.CallInstruction)
+				if !ok || x == op.Instr || !an.Dominates(op.Instr, x) || an.IsUnlockOf(x, op) {
+					return
+				}
+				if _, isGo := x.(*ssa.Go); isGo {
+					return
+				}
+				over := false
+				an.EachInstr(fn, func(u ssa.Instruction) {
+					if _, isDefer := u.(*ssa.Defer); !isDefer && an.IsUnlockOf(u, op) && an.Dominates(op.Instr, u) && an.Dominates(u, x) {
+						over = true
+					}
+				})
+				if over {
+					return
+				}
+				if _, isDefer := x.(*ssa.Defer); isDefer {
+					return // runs at exit; a deferred unlock registered earlier runs after it, but the common shape (defer Unlock) is the unlock itself
+				}
+				var roots []*ssa.Function
+				for _, callee := range p.Callees(ci.Common()) {
+					if an.InModule(callee) && callee.Blocks != nil {
+						roots = append(roots, callee)
+					}
+				}
+				if len(roots) == 0 {
+					return
+				}
+				reach := p.Reach(roots, func(e an.CallEdge) bool { return e.Kind == an.EdgeCall && an.InModule(e.Callee) })
+				for g := range reach {
+					for _, o3 := range an.BlockingOps(g) {
+						if (o3.Kind == "lock" || o3.Kind == "rlock") && groupKey(o3.OnVal) == key {
+							inside = append(inside, "re-acquired ("+o3.Kind+") by "+an.Short(g)+", called at "+p.Pos(x.Pos())+" while it is held")
+						}
+					}
+				}
+			})
 			if released && len(inside) == 0 {
 				c.OK(rule, okey, op.Instr.Pos(), "released on every path, nothing blocks while it is held")
 			} else {
